@@ -669,12 +669,48 @@ def _integrands(u: Unit) -> Dict[str, ast.AST]:
         if not assigns and len(rets) == 1:
             out[label0] = rets[0].value
             continue
+        returned = {r.value.id for r in rets if isinstance(r.value, ast.Name)}
         for a in assigns:
+            if returned and not any(isinstance(t, ast.Name) and t.id in returned for t in a.targets):
+                continue
             c2 = branch_context(fn, a)
             guard = [br for (t, br) in c2 if "finfo" in norm(t) or "eps" in norm(t)]
             if len(guard) == 1:
-                out[f"{label0}/{'guarded' if guard[0] else 'overflow'}"] = a.value
+                gt = [t for (t, br) in c2 if "finfo" in norm(t) or "eps" in norm(t)][0]
+                small = _small_branch(gt)
+                exact = guard[0] if small is None else (guard[0] != small)
+                out[f"{label0}/{'guarded' if exact else 'overflow'}"] = \
+                    _inline_locals(fn, a, returned)
     return out
+
+
+def _inline_locals(fn: ast.FunctionDef, a: ast.Assign, returned: Set[str]) -> ast.AST:
+    """a.value with the integrand's own single-assignment temporaries written out
+    (a temporary defined in the same branch or before the branching)."""
+    import copy
+    ctx_a = [(norm(t), br) for (t, br) in branch_context(fn, a)]
+    defs: Dict[str, ast.AST] = {}
+    for st in [x for x in ast.walk(fn) if isinstance(x, ast.Assign)]:
+        if st is a or len(st.targets) != 1 or not isinstance(st.targets[0], ast.Name):
+            continue
+        name = st.targets[0].id
+        if name in returned or st.lineno >= a.lineno:
+            continue
+        ctx = [(norm(t), br) for (t, br) in branch_context(fn, st)]
+        if ctx != ctx_a[:len(ctx)]:
+            continue                      # defined on another branch
+        if name in defs:
+            defs[name] = None             # several definitions: leave the name alone
+        else:
+            defs[name] = st.value
+
+    class Sub(ast.NodeTransformer):
+        def visit_Name(self, n):
+            v = defs.get(n.id)
+            if isinstance(n.ctx, ast.Load) and v is not None:
+                return Sub().visit(copy.deepcopy(v))
+            return n
+    return Sub().visit(copy.deepcopy(a.value))
 
 
 def l5(prog: Program, chk: Check) -> None:
@@ -710,6 +746,11 @@ def l5(prog: Program, chk: Check) -> None:
         if c is None or e is None:
             raise AnalysisError(f"L5: integrand of branch {label} is outside the expression class "
                                 f"(sums/products of exp(a + b*tau), powers of w)")
+        # the branch beyond the guard approximates by design: residuals bounded by the guarded
+        # quantity (in the sense of L8) are accepted there, and only there
+        approx = label.endswith("/overflow")
+        gsym = _guard_symbol(eu) if approx else None
+        approx = approx and gsym is not None
         d2 = e.d_tau().d_tau()
         lhs = (-d2 if neg else d2)
         rhs = (-c if cneg else c)
@@ -721,11 +762,19 @@ def l5(prog: Program, chk: Check) -> None:
                 if n == 0:
                     at0 = at0 + cf
             at0 = _reduce_i(_clear_inv(at0, _INV_TABLE))
+            if approx and at0.terms and all(dict(m).get(gsym, 0) >= 1 for m in at0.terms):
+                chk.add("L5", eu, f"branch {label}: eta kernel {'value' if order == 0 else 'slope'} "
+                        f"at tau = 0", True, f"= {at0}, bounded by the guarded {gsym} <= eps", ei[label])
+                continue
             chk.add("L5", eu, f"branch {label}: eta kernel {'value' if order == 0 else 'slope'} "
                     f"at tau = 0", not at0.terms,
                     "vanishes" if not at0.terms else
                     f"= {at0} (times a common denominator): eta(0) = eta'(0) = 0 is violated, so "
                     f"cell integrals no longer tile additively", ei[label])
+        if approx and not diff.is_zero() and not _not_negligible(_clear_all_inv(diff)[0], gsym):
+            chk.add("L5", eu, f"branch {label}: d^2/dtau^2 of the eta kernel vs correlation integrand",
+                    True, f"eta'' = C up to {diff}, bounded by the guarded {gsym} <= eps", ei[label])
+            continue
         chk.add("L5", eu, f"branch {label}: d^2/dtau^2 of the eta kernel vs correlation integrand",
                 diff.is_zero(),
                 "eta'' = C" if diff.is_zero() else
@@ -776,6 +825,170 @@ def l7(prog: Program, chk: Check) -> None:
                 g.nodes[q].ast, path=None if p is None else g.describe_path(p, u.loc)[-5:])
 
 
+# --------------------------------------------------------------------- L8
+def _is_eps(e: ast.AST) -> bool:
+    t = norm(e)
+    return "finfo" in t or t.endswith("eps") or "epsilon" in t
+
+
+def _small_branch(t: ast.AST) -> Optional[bool]:
+    """Which outcome of test t implies that the guarded exponential is below machine
+    precision: True (then-branch), False (else-branch) or None (neither is implied)."""
+    if isinstance(t, ast.UnaryOp) and isinstance(t.op, ast.Not):
+        v = _small_branch(t.operand)
+        return None if v is None else (not v)
+    if isinstance(t, ast.BoolOp):
+        vs = [_small_branch(x) for x in t.values]
+        if isinstance(t.op, ast.And):
+            return True if True in vs else None     # then-branch: all conjuncts hold
+        return False if False in vs else None       # else-branch: all disjuncts fail
+    if isinstance(t, ast.Compare) and len(t.ops) == 1:
+        a, b, op = t.left, t.comparators[0], t.ops[0]
+        def is_exp(x):
+            return isinstance(x, ast.Call) and (dotted(x.func) or "").split(".")[-1] == "exp"
+        if is_exp(a) and _is_eps(b):
+            if isinstance(op, (ast.Gt, ast.GtE)):
+                return False
+            if isinstance(op, (ast.Lt, ast.LtE)):
+                return True
+        if is_exp(b) and _is_eps(a):
+            if isinstance(op, (ast.Lt, ast.LtE)):
+                return False
+            if isinstance(op, (ast.Gt, ast.GtE)):
+                return True
+    return None
+
+
+def _guard_tests(u: Unit) -> List[ast.AST]:
+    return [x.test for fn in ast.walk(u.node)
+            if isinstance(fn, ast.FunctionDef) and fn.name == "integrand"
+            for x in ast.walk(fn) if isinstance(x, ast.If)
+            and ("finfo" in norm(x.test) or "eps" in norm(x.test))]
+
+
+def _guard_symbol(u: Unit) -> Optional[str]:
+    """EXP[..] symbol of the quantity the overflow guard bounds by machine precision."""
+    for fn in [x for x in ast.walk(u.node) if isinstance(x, ast.FunctionDef) and x.name == "integrand"]:
+        for t in [x.test for x in ast.walk(fn) if isinstance(x, ast.If)]:
+            if "finfo" not in norm(t) and "eps" not in norm(t):
+                continue
+            for c in [x for x in ast.walk(t) if isinstance(x, ast.Call)
+                      and (dotted(x.func) or "").split(".")[-1] == "exp"]:
+                v = _tau_expr(c)
+                if v is None:
+                    continue
+                p = v.tau_free()
+                if p is None or len(p.terms) != 1:
+                    continue
+                (m, cf), = p.terms.items()
+                if cf == 1 and len(m) == 1 and m[0][0].startswith("EXP[") and m[0][1] == 1:
+                    return m[0][0]
+    return None
+
+
+def _times(expr: TauExpr, p: Poly) -> TauExpr:
+    return expr * TauExpr.const(p)
+
+
+def _clear_all_inv(expr: TauExpr) -> Tuple[TauExpr, List[str]]:
+    """expr times the denominators of all INV[..] symbols it mentions."""
+    invs = sorted({sym for c in expr.terms.values() for m in c.terms for (sym, pw) in m
+                   if sym.startswith("INV[")})
+    out = expr
+    for inv in invs:
+        den = _INV_TABLE.get(inv)
+        if den is None:
+            raise AnalysisError(f"L8: denominator of {inv} unknown")
+        terms = {}
+        for key, c in out.terms.items():
+            new = Poly()
+            for m, cf in c.terms.items():
+                pw = dict(m).get(inv, 0)
+                rest = tuple((s_, q) for (s_, q) in m if s_ != inv)
+                if pw == 0:
+                    new = new + Poly({rest: cf}) * den
+                elif pw == 1:
+                    new = new + Poly({rest: cf})
+                else:
+                    raise AnalysisError(f"L8: {inv} occurs squared")
+            terms[key] = new
+        out = TauExpr(terms)
+    return out, invs
+
+
+def _imag_rate(k: Poly) -> Optional[Fraction]:
+    """a for kappa = a*I*W (growth rate exp(a*W*tau_M) on the imaginary-time axis), 0 for kappa = 0."""
+    if not k.terms:
+        return Fraction(0)
+    if len(k.terms) != 1:
+        return None
+    (m, cf), = k.terms.items()
+    if dict(m) == {"I": 1, "W": 1}:
+        return Fraction(cf)
+    return None
+
+
+def _not_negligible(delta: TauExpr, sym: str) -> List[str]:
+    """terms of delta not bounded by sym <= eps for real tau and tau = -i*tau_M, 0 <= tau_M <= 1/T"""
+    bad = []
+    for (k, n), c in delta.terms.items():
+        a = _imag_rate(k)
+        for m, cf in c.terms.items():
+            p = dict(m).get(sym, 0)
+            if a is None or p < 1 + max(a, 0):
+                bad.append(f"({Poly({m: cf})})*tau^{n}*exp(({k})*tau)")
+    return bad
+
+
+def guard_limits(prog: Program, chk: Check, rule: str,
+                 quals=("CustomSD.correlation", "CustomSD.eta_function")) -> None:
+    for qual in quals:
+        u = prog.unit(f"{BC}:{qual}")
+        chk.saw(u)
+        ints = _integrands(u)
+        g, o = ints.get("T>0/guarded"), ints.get("T>0/overflow")
+        if g is None and o is None:
+            chk.add(rule, u, f"{qual}: thermal integrand has no branch beyond an overflow guard",
+                    True, "nothing is approximated")
+            continue
+        if g is None or o is None:
+            raise AnalysisError(f"{rule}: {qual} has a guarded thermal integrand with one branch only")
+        sym = _guard_symbol(u)
+        if sym is None:
+            raise AnalysisError(f"{rule}: the quantity bounded by the overflow guard of {qual} "
+                                f"is not of the form exp(tau-free)")
+        for t in _guard_tests(u):
+            sb = _small_branch(t)
+            chk.add(rule, u, f"{qual}: guard `{norm(t)[:70]}`", sb is not None,
+                    f"the {'then' if sb else 'else'}-branch is taken only when {sym} is at most "
+                    f"machine precision" if sb is not None else
+                    f"neither outcome of this test implies {sym} <= eps: the approximate "
+                    f"integrand is also used where the thermal factor is of order one", t)
+        ge, oe = _tau_expr(g), _tau_expr(o)
+        if ge is None or oe is None:
+            raise AnalysisError(f"{rule}: integrand of {qual} outside the expression class")
+        delta, invs = _clear_all_inv(ge - oe)
+        bad = _not_negligible(delta, sym)
+        chk.add(rule, u, f"{qual}: branch beyond the guard vs guarded branch (difference times "
+                f"{' * '.join(x[4:-1] for x in invs) or '1'}, {len(delta.terms)} terms)", not bad,
+                f"every term of the difference is bounded by {sym} <= eps for real tau and for "
+                f"tau = -i*tau_M with 0 <= tau_M <= 1/T" if not bad else
+                f"the branch beyond the guard differs from the exact integrand by {bad[0]}"
+                + (f" (+{len(bad) - 1} more)" if len(bad) > 1 else "") +
+                f": on the imaginary-time axis (tau = -i*tau_M, tau_M up to 1/T) exp(i*W*tau) grows "
+                f"like 1/{sym}, so this term is of order one where the guard says it is negligible",
+                o)
+
+
+def l8(prog: Program, chk: Check) -> None:
+    chk.rule("L8", "the thermal integrands beyond the overflow guard are the guarded integrands up "
+             "to terms bounded by the guarded quantity exp(-w/T) <= eps, for real time arguments and "
+             "for Matsubara arguments tau = -i*tau_M with tau_M in [0, 1/T] (where exp(+i*w*tau) is "
+             "as large as exp(w/T)): a term may be dropped only if its power of exp(-w/T) exceeds "
+             "its growth rate on the imaginary-time axis", floor=2)
+    guard_limits(prog, chk, "L8")
+
+
 def run(prog: Program, chk: Check) -> None:
     chk.explanation = (
         "Decides, by a sibling cross-check, that CustomSD's closed-form cell integrals are the "
@@ -798,3 +1011,4 @@ def run(prog: Program, chk: Check) -> None:
     chk.call(l5, prog, chk)
     chk.call(l6, prog, chk)
     chk.call(l7, prog, chk)
+    chk.call(l8, prog, chk)
